@@ -224,6 +224,14 @@ impl Context {
         res
     }
 
+    /// Whether the body of the function `fid` is still being generated,
+    /// i.e. it is the current function or one that encloses it.
+    fn is_under_construction(&self, fid: usize) -> bool {
+        self.data
+            .iter()
+            .take(self.data_i + 1)
+            .any(|d| d.func_i.0 as usize == fid)
+    }
     fn get_current_fn(&mut self) -> &mut mir::Function {
         let i = self.get_ctxdata().func_i.0 as usize;
         &mut self.program.functions[i]
@@ -2447,8 +2455,20 @@ impl Context {
                     // If the inferred types are still generic (we are inside a
                     // generic function body), defer monomorphization until the
                     // enclosing function is itself monomorphized.
+                    // The same holds for a recursive call: the body of the callee is
+                    // not complete yet, so there is nothing to specialize. The call
+                    // is redirected when the enclosing function is monomorphized.
+                    let callee_is_incomplete = match f_val.as_ref() {
+                        Value::Function(fid) => self.is_under_construction(*fid),
+                        Value::Global(gv) => matches!(
+                            gv.as_ref(),
+                            Value::Function(fid) if self.is_under_construction(*fid)
+                        ),
+                        _ => false,
+                    };
                     let still_generic = concrete_arg_ty.to_type().contains_unresolved()
-                        || concrete_ret_ty.to_type().contains_unresolved();
+                        || concrete_ret_ty.to_type().contains_unresolved()
+                        || callee_is_incomplete;
 
                     match f_val.as_ref() {
                         Value::ExtFunction(fn_name, _fn_ty) if !still_generic => {
